@@ -1,16 +1,31 @@
 (* C21 — Inputs generated for the bundled formalizations pass independent validity checks.
-   PROVED PART: the shipped CSV formalization (grammar Csv.CSV + constraint csv_colno_property,
-   both diffed against /repo on every run) implies — and is implied by — the independent
-   validity notion "the CSV reader csv_rows finds the same number of columns in every record".
-   Only statements + `exact`; proofs are in Formal/CsvFacts.v, models in Formal/Csv.v.
+   PROVED PART 1 (CSV): the shipped CSV formalization (grammar Csv.CSV + constraint
+   csv_colno_property, both diffed against /repo on every run) implies — and is implied by — the
+   independent validity notion "the CSV reader csv_rows finds the same number of columns in every
+   record".  Proofs in Formal/CsvFacts.v, models in Formal/Csv.v.
 
-   NOT PROVED (search only, see harness/c21.py): the solver side (that ISLaSolver outputs are
-   derivation trees of the grammar satisfying the constraint: that is C01) and the XML, reST and
-   simple-TAR formalizations.  The full statement of C21 for those reads
+   PROVED PART 2 (XML, full for the tag-balance constraint): for both shipped XML grammars
+   (Xml.XML = XML_GRAMMAR, Xml.XMLNS = XML_GRAMMAR_WITH_NAMESPACE_PREFIXES) and the shipped
+   xml_wellformedness_constraint (all diffed against /repo on every run): every closed derivation
+   tree whose open/close elements carry equal ids (xml_wf_sat, the documented meaning of the
+   constraint; xml_wf_satb is its decision procedure = the evaluator's verdict) has a text that the
+   independent one-pass tag-stack reader xml_balanced accepts — and conversely, the reader accepts
+   the text of a derivation tree ONLY IF the constraint holds (theorems C21_xml_valid_iff, C21_xml_valid_iff_ns,
+   C21_xml_balanced_exact, C21_xml_balanced_exact_ns).  Attributes (quoted values may contain / = and escaped quotes) and
+   self-closing tags are inside the theorem; no fuel, no size bound.  The lexing side conditions
+   (names contain no < > quote slash blank; text and attribute values contain no < and no raw
+   quote; names are non-empty) are decided on the transcribed grammars (sub_closedb / nonnullb by
+   vm_compute) and proved sound once (CsvFacts.sub_closed_sound, XmlValid.nonnull_sound).
+   Proofs in Formal/XmlFacts.v + Formal/XmlValid.v, models in Formal/Xml.v.
+
+   STILL NOT PROVED (search only, see harness/c21.py): the solver side (that ISLaSolver outputs are
+   derivation trees of the grammar satisfying the constraint: that is C01); for XML the two
+   namespace constraints and the attribute-uniqueness constraint (xml.etree is the oracle there);
+   the reST and simple-TAR formalizations.  The full statement of C21 for those reads
      forall t, solver_output XML/REST/TAR t -> independent_check (yield t)
    and has no Gallina counterpart here (no executable model of docutils / of the Python closures
    that implement the TAR predicates). *)
-From ISLA Require Import Grammar GrammarFacts Csv CsvFacts.
+From ISLA Require Import Grammar GrammarFacts Csv CsvFacts Xml XmlFacts XmlValid.
 
 (* the constraint, as decided on closed trees the way evaluate() decides it, means what
    csv_colno_property documents: some n >= 1 equals the number of <raw-field> nodes of every
@@ -80,3 +95,112 @@ Example C21_constraint_needed :
   csv_validb (yield ex_bad) = false.
 Proof. exact ex_bad_invalid. Qed.
 Print Assumptions C21_constraint_needed.
+
+(* ========================================================================= *)
+(* XML: grammar + xml_wellformedness_constraint  <->  tag balance            *)
+(* ========================================================================= *)
+
+(* the constraint, as decided on closed trees the way evaluate() decides it, means what
+   xml_wellformedness_constraint documents: in every <xml-tree> node of the shape
+   <{<id> opid}[ <xml-attribute>]><inner-xml-tree></{<id> clid}>  the texts of opid and clid agree *)
+Theorem C21_xml_wf_decision : forall t, xml_wf_satb t = true <-> xml_wf_sat t.
+Proof. exact xml_wf_satb_spec. Qed.
+Print Assumptions C21_xml_wf_decision.
+
+(* the boolean matcher finds exactly the nodes / bindings of the declarative match relation *)
+Theorem C21_xml_match_meaning : forall r a b, match_ids r = Some (a, b) <-> matches_openclose r a b.
+Proof. exact match_ids_spec. Qed.
+Print Assumptions C21_xml_match_meaning.
+
+(* MAIN (XML_GRAMMAR): grammar + constraint imply that the independent tag-stack reader accepts *)
+Theorem C21_xml_valid : forall t,
+  wf_tree XML t -> is_openT t = false -> lbl t = X_start -> xml_wf_sat t ->
+  xml_balanced (yield t) = true.
+Proof. exact xml_valid_XML. Qed.
+Print Assumptions C21_xml_valid.
+
+(* the constraint is not stronger than needed either *)
+Theorem C21_xml_valid_iff : forall t,
+  wf_tree XML t -> is_openT t = false -> lbl t = X_start ->
+  (xml_wf_sat t <-> xml_balanced (yield t) = true).
+Proof. exact xml_valid_iff_XML. Qed.
+Print Assumptions C21_xml_valid_iff.
+
+(* same for XML_GRAMMAR_WITH_NAMESPACE_PREFIXES (names may contain one colon) — the grammar the
+   constraint is parsed against and the solver is run on *)
+Theorem C21_xml_valid_ns : forall t,
+  wf_tree XMLNS t -> is_openT t = false -> lbl t = X_start -> xml_wf_sat t ->
+  xml_balanced (yield t) = true.
+Proof. exact xml_valid_XMLNS. Qed.
+Print Assumptions C21_xml_valid_ns.
+
+Theorem C21_xml_valid_iff_ns : forall t,
+  wf_tree XMLNS t -> is_openT t = false -> lbl t = X_start ->
+  (xml_wf_sat t <-> xml_balanced (yield t) = true).
+Proof. exact xml_valid_iff_XMLNS. Qed.
+Print Assumptions C21_xml_valid_iff_ns.
+
+(* boolean instances evaluated by the correspondence check on every generated tree: the reader's
+   verdict on the text IS the constraint's verdict on the tree *)
+Theorem C21_xml_balanced_exact : forall t,
+  wf_treeb XML t = true -> closedb t = true -> lbl t = X_start ->
+  xml_balanced (yield t) = xml_wf_satb t.
+Proof. exact xml_valid_bool. Qed.
+Print Assumptions C21_xml_balanced_exact.
+
+Theorem C21_xml_balanced_exact_ns : forall t,
+  wf_treeb XMLNS t = true -> closedb t = true -> lbl t = X_start ->
+  xml_balanced (yield t) = xml_wf_satb t.
+Proof. exact xmlns_valid_bool. Qed.
+Print Assumptions C21_xml_balanced_exact_ns.
+
+(* the generic form: any grammar with the seven structural XML rules whose <id> / <text>
+   sub-grammars respect the character classes (side conditions are booleans) *)
+Theorem C21_xml_valid_generic : forall g S_id S_txt S_nn S_leaf,
+  alts g X_start = [[X_tree]] ->
+  alts g X_tree  = [[X_open; X_inner; X_close]; [X_oc]] ->
+  alts g X_inner = [[X_tree; X_inner]; [X_tree]; [X_text]] ->
+  alts g X_open  = [[T_lt; X_id; T_sp; X_attr; T_gt]; [T_lt; X_id; T_gt]] ->
+  alts g X_oc    = [[T_lt; X_id; T_sp; X_attr; T_sgt]; [T_lt; X_id; T_sgt]] ->
+  alts g X_close = [[T_lts; X_id; T_gt]] ->
+  alts g X_attr  = [[X_attr; T_sp; X_attr]; [X_id; T_eqq; X_text; T_q]] ->
+  sub_closedb g S_id idcb = true -> In X_id S_id ->
+  sub_closedb g S_txt txc = true -> In X_text S_txt ->
+  nonnullb g S_nn = true -> In X_id S_nn ->
+  sub_closedb g S_leaf (fun _ => true) = true ->
+  In X_open S_leaf /\ In X_close S_leaf /\ In X_oc S_leaf /\ In X_text S_leaf ->
+  ~ In X_tree S_leaf ->
+  forall t, wf_tree g t -> is_openT t = false -> lbl t = X_start ->
+  xml_balanced (yield t) = xml_wf_satb t.
+Proof. exact xml_balanced_exact. Qed.
+Print Assumptions C21_xml_valid_generic.
+
+(* non-vacuity: the tree of  <a b=QxEQ/Q><c-1/>t</a>  (attribute value with an escaped quote and a
+   slash, a self-closing child, text) satisfies every premise; so does a prefixed element *)
+Example C21_xml_premises_satisfiable :
+  wf_tree XML ex_xml /\ is_openT ex_xml = false /\ lbl ex_xml = X_start /\ xml_wf_sat ex_xml.
+Proof. exact ex_xml_premises. Qed.
+Print Assumptions C21_xml_premises_satisfiable.
+
+Example C21_xmlns_premises_satisfiable :
+  wf_tree XMLNS ex_xmlns /\ is_openT ex_xmlns = false /\ lbl ex_xmlns = X_start /\ xml_wf_sat ex_xmlns.
+Proof. exact ex_xmlns_premises. Qed.
+Print Assumptions C21_xmlns_premises_satisfiable.
+
+(* the grammar alone does not give balance: the constraint is needed ( <a>t</b> ) *)
+Example C21_xml_constraint_needed :
+  wf_treeb XML ex_xml_bad = true /\ closedb ex_xml_bad = true /\ xml_wf_satb ex_xml_bad = false /\
+  xml_balanced (yield ex_xml_bad) = false.
+Proof. exact ex_xml_bad_invalid. Qed.
+Print Assumptions C21_xml_constraint_needed.
+
+(* the reader rejects crossed, unclosed, stray-close and unterminated tags, and does not end a tag
+   at a quoted > *)
+Example C21_xml_reader_rejects :
+  xml_balanced [60;97;62;60;98;62;60;47;97;62;60;47;98;62]%N = false /\
+  xml_balanced [60;97;62]%N = false /\ xml_balanced [60;47;97;62]%N = false /\
+  xml_balanced [60;97]%N = false /\
+  xml_balanced [60;97;32;98;61;34;62;34;62;60;47;97;62]%N = true /\
+  xml_balanced [60;97;47;62;60;98;62;120;60;47;98;62]%N = true.
+Proof. exact xml_balanced_rejects. Qed.
+Print Assumptions C21_xml_reader_rejects.
